@@ -763,6 +763,7 @@ type wgenOpts struct {
 	selSwzBoost bool
 	multiSwz   bool // multi-component swizzles as values
 	f2iRange   bool // f32 -> i32/u32 conversions of values outside the target range (C01 finding: SPIR-V converts unclamped)
+	frem       bool // `%` on f32 (C01 finding: SPIR-V emits OpFMod, the floored remainder)
 	bitField   bool // extractBits / insertBits with offsets and counts up to 63 (C01 finding: SPIR-V passes them on unclamped)
 	pack4      bool // pack4x{I,U}8[Clamp] / unpack4x{I,U}8
 	noArrRead  bool // no `a[i]` value reads of local arrays and no array-typed `let`
@@ -1012,6 +1013,11 @@ func (g *wgen) binary(t *wty, depth int) *wexpr {
 		}
 		return g.leaf(t)
 	case "f32":
+		if g.o.frem && g.c.chance(0.25) {
+			// float remainder: dividend a half-integer of either sign, divisor a positive half-integer (never zero)
+			g.f("float-remainder")
+			return mk("%", g.halves(t), g.posHalves(t))
+		}
 		op := g.c.pick("+", "-", "*")
 		// keep magnitudes small and integral: leaves only
 		return mk(op, g.leaf(t), g.leaf(t))
@@ -1233,6 +1239,20 @@ func (g *wgen) halves(t *wty) *wexpr {
 	g.f("half-integer")
 	lit := func(v int32) *wexpr { return &wexpr{k: "lit", ty: tF32, bits: uint32(v), konst: true, small: true} }
 	d := &wexpr{k: "bin", ty: tF32, op: "-", args: []*wexpr{g.load(tF32), lit(8)}}
+	return &wexpr{k: "bin", ty: tF32, op: "/", args: []*wexpr{d, lit(2)}}
+}
+
+// posHalves: a run-time f32 value (or vector of them) in {0.5, 1.0, …, 8.0}: (f32(inp[k] & 15) + 1.0) / 2.0
+func (g *wgen) posHalves(t *wty) *wexpr {
+	if t.k == "vec" {
+		args := make([]*wexpr, t.n)
+		for i := range args {
+			args[i] = g.posHalves(t.elem)
+		}
+		return &wexpr{k: "cons", ty: t, args: args}
+	}
+	lit := func(v int32) *wexpr { return &wexpr{k: "lit", ty: tF32, bits: uint32(v), konst: true, small: true} }
+	d := &wexpr{k: "bin", ty: tF32, op: "+", args: []*wexpr{g.load(tF32), lit(1)}}
 	return &wexpr{k: "bin", ty: tF32, op: "/", args: []*wexpr{d, lit(2)}}
 }
 
